@@ -63,7 +63,7 @@ fn draw_iter_h<const FW: u16, const FH: u16, const N: usize>(oob: bool, fixed: b
     let (ctl, _, _) = d.release();
     let c = &ctl.c;
     assert_framing(c);
-    assert!(!c.f_overrun, "[C08] more pixel data than the window holds");
+    crate::indep! { assert!(!c.f_overrun, "[C08] more pixel data than the window holds"); }
     // oracle: sequential set_pixel of the in-bounds pixels, in order
     let mut exp_val = 0u32;
     let mut exp_cnt = 0u32;
@@ -84,7 +84,7 @@ fn draw_iter_h<const FW: u16, const FH: u16, const N: usize>(oob: bool, fixed: b
     if exp_cnt > 0 {
         assert!(c.probe_val == exp_val, "[C03][C01] last write in iterator order wins, right colour on the right cell");
     }
-    assert!(c.ramwr_count <= total, "[C20] never more window set-ups than in-bounds pixels");
+    crate::indep! { assert!(c.ramwr_count <= total, "[C20] never more window set-ups than in-bounds pixels"); }
     if N >= 2 && n == 2 && inb[0] && inb[1 % N] && ys[0] == ys[1 % N] && xs[1 % N] == xs[0] + 1 && cfg!(feature = "batch") {
         assert!(c.ramwr_count == 1, "[C20] a left-to-right run of two pixels is one burst");
     }
